@@ -42,4 +42,10 @@ def units(ctx):
     # elements consumed / emitted (loop invariants)
     us += [contract_unit(c, world_setup=colls.setup_mem)
            for c in colls.lambda_contracts()]
+    # "once per element CONSUMED": the lazy operators must not pull (and
+    # thereby run upstream lambdas for) elements nobody asked for
+    us += [contract_unit(c, world_setup=colls.setup)
+           for c in colls.wrapper_contracts() if 'C14' in c.serves]
+    us += [contract_unit(c, world_setup=colls.setup_mem)
+           for c in colls.memorize_contracts()]
     return us
